@@ -17,6 +17,8 @@ import time
 import types
 import warnings
 
+import numpy as np
+
 OUTCOMES = ['done', 'failupd', 'failnone', 'raise', 'none', 'notpair', 'badstatus',
             'badupdate', 'waitstatus', 'intstatus', 'donenone', 'clash']
 # model view of an outcome: (has_upd, ok)
@@ -174,8 +176,8 @@ class World:
                         world.gifts[(self.idx, dep_t)] = k
             if kind == 'clash':
                 # a well-formed update that Env.apply cannot merge (a mapping where the environment
-                # holds a plain value): publish() records the task as FAILED
-                return {f'aux_{self.name}': {'x': k}}, TaskStatus.DONE
+                # holds a plain value, a list, an array...): publish() records the task as FAILED
+                return {f'aux_{self.name}': {7: k, 'x': k}}, TaskStatus.DONE
             if kind == 'poison':
                 # a well-formed update that files something the master cannot read as a status
                 # under the name of a task that depends on this one
@@ -411,6 +413,37 @@ def explore(world, case, oracles, fake_ctx_cls, focus):
 PROBE_LOGGER = logging.getLogger('valjean.probe')
 
 
+def carry_through_files(world, env, n, lost, irun):
+    '''the documented way, for real: every task entry gets an output directory (as RunTask results
+    have), valjean.cambronne.common.write_env writes one file per task, the files of the `lost`
+    tasks disappear, read_env builds the environment of the next run.  Returns the new
+    environment and what is wrong with it (a DONE entry with an intact file that did not come back)'''
+    from valjean.cambronne import common as cam
+    root = os.path.join(world.scratch, f'carry-{os.getpid()}')
+    names = [f't{t}' for t in range(n)]
+    for name in names:
+        ent = env.dictionary.get(name)
+        if isinstance(ent, dict):
+            os.makedirs(os.path.join(root, name), exist_ok=True)
+            ent['output_dir'] = os.path.join(root, name)
+    before = snapshot_env(env, n)
+    cam.write_env(env, filename='env.pickle', fmt='pickle')
+    for t in lost:
+        try:
+            os.unlink(os.path.join(root, f't{t}', 'env.pickle'))
+        except OSError:
+            pass
+    new_env = cam.read_env(root=root, names=names, filename='env.pickle', fmt='pickle')
+    after = snapshot_env(new_env, n)
+    errs = []
+    for t in range(n):
+        want = before[t] if before[t] is not None and before[t][0] == 'DONE' and t not in lost else None
+        if after[t] != want:
+            errs.append(f'run {irun + 1} starts from the files written after run {irun}: the entry of t{t} read back '
+                        f'is {after[t]}, expected {want} (files lost: {sorted(lost)})')
+    return new_env, errs
+
+
 @contextlib.contextmanager
 def special_process_state(case):
     '''process-wide settings a caller may have: warnings turned into errors, logging at DEBUG level
@@ -503,6 +536,7 @@ def run_history(world, case):
     results = []
     reuse_box = {}
     base_cyclic = is_cyclic(n, full) if not stages else False
+    carry_errors = []
     for irun, run in enumerate(case['runs']):
         cyclic = base_cyclic
         world.outcomes = run['outcomes']
@@ -514,8 +548,10 @@ def run_history(world, case):
         else:
             choose = make_choose(run['strategy'], rng)
         for t in range(n):
-            if run['outcomes'][t].partition(':')[0] == 'clash':
-                env.dictionary[f'aux_t{t}'] = 3
+            ckind, _, cvar = run['outcomes'][t].partition(':')
+            if ckind == 'clash':
+                # what the mapping of the update meets: the merge raises TypeError, IndexError, ...
+                env.dictionary[f'aux_t{t}'] = [3, [1, 2], np.zeros(3), 'text', None, (1, 2)][int(cvar or 0) % 6]
         if run.get('tz'):
             # the time zone of the process changes between runs (clocks are time.time() values)
             os.environ['TZ'] = run['tz']
@@ -615,6 +651,8 @@ def run_history(world, case):
             'execs': list(world.run_execs),
             'outcomes': run['outcomes'],
         }
+        res['carry_errors'] = carry_errors
+        carry_errors = []
         res['clock_start'] = res['clock0'] if irun == 0 else results[-1]['clock_end']
         res['clock_end'] = clock
         results.append(res)
@@ -632,6 +670,9 @@ def run_history(world, case):
                 persisted.dictionary.pop(f't{t}', None)
             if case['runs'][irun + 1].get('carry') == 'unpickled':
                 env = persisted      # the unpickled environment itself, stale statuses included
+            elif case.get('carry_files'):
+                env, errs = carry_through_files(world, env, n, case['runs'][irun + 1].get('lost', []), irun)
+                carry_errors = errs
             else:
                 env = Env()
                 env.merge_done_tasks(persisted)
@@ -644,6 +685,7 @@ def run_history(world, case):
 def main(argv):
     cases = json.load(open(argv[1]))
     world = World()
+    world.scratch = os.path.dirname(os.path.abspath(argv[2]))
     with open(argv[2], 'w') as out:
         for case in cases:
             try:
